@@ -126,6 +126,24 @@ def run_variables(ctx: Ctx):
                 later = float(var.denormalize(stored))
             except Exception as e:
                 later = float('nan')
+            # after the update the two directions must still be inverse to each other, and the reported normalised domain the image of
+            # the new bounds (a denormalisation that remembers hyper-parameters of an earlier call would pass the test above)
+            try:
+                if haslog:
+                    raise StopIteration          # the widened domain may leave the domain of a Log stage
+                nd2 = var.get_domain()
+                for x2 in (xs[1], nd2[0], nd2[1]):
+                    y2 = float(var.normalize(x2)); b2 = float(var.denormalize(y2))
+                    if y2 == y2 and abs(y2) != float('inf') and not abs(b2 - x2) <= 1e-8 * max(abs(nd2[0]), abs(nd2[1]), 1.0):
+                        ctx.violate('C16:roundtrip-after-domain-update', f'after update_domain to {nd2}: denormalize(normalize({x2})) = {b2}', case); break
+                ndn = VariableList([var]).get_domains(norm=True)['v']
+                back_dom = (float(var.denormalize(ndn[0])), float(var.denormalize(ndn[1])))
+                if all(v == v and abs(v) != float('inf') for v in ndn) and not (abs(back_dom[0] - nd2[0]) <= 1e-8 * (1 + abs(nd2[0])) and abs(back_dom[1] - nd2[1]) <= 1e-8 * (1 + abs(nd2[1]))):
+                    ctx.violate('C16:roundtrip-after-domain-update', f'after update_domain to {nd2}: the normalised domain {ndn} decodes to {back_dom}', case)
+            except StopIteration:
+                pass
+            except Exception as e:
+                ctx.violate('C16:normalize-raises', f'after update_domain: {type(e).__name__}: {e}', case)
             if not abs(later - xs[0]) <= 1e-8 * scale:
                 mm = any(isinstance(t, Minmax) for t in var.norm)
                 ctx.violate('C16:stored-value-reinterpreted-after-domain-update:minmax' if mm else 'C16:stored-value-reinterpreted-after-domain-update',
